@@ -169,6 +169,14 @@ CLAIMED = {
             'leaf: disjunction of the literals labelled with the other class for an A-leaf, conjunction of their negations for a B-leaf - established by abstract evaluation of '
             'compInterpLabelingInner and getInterpolantForOriginalClause over symbolic interpolants and literals plus truth tables; the proof builder puts the positive pivot occurrence first.',
             'static analysis: abstract evaluation of the two combination functions over symbolic inputs (all pivot labels / leaf classes / literal signs) + truth-table equivalence with the rules of the labelled interpolation system', ''),
+    'C12': ('other',
+            'Static, the clause-level operations of the simplifier only (that every clause learnt in a run follows from the database is a statement about run-time data): '
+            'SimpSMTSolver::merge and Clause::subsumes look at literals only through identity, negation and variable equality; for all pairs of clauses with up to two (thorough: three) '
+            'literals besides the pivot over three further variables, both signs, every order, an abstract evaluator runs the function (including its goto-based search) on the clause '
+            'shapes: merge reports a tautology exactly when the resolvent has a complementary pair and otherwise yields exactly the literals of both clauses without the pivot; '
+            'subsumes answers lit_Undef only for a subset, a literal p only if self-subsuming resolution on p is justified, lit_Error otherwise; backwardSubsumptionCheck removes / '
+            'strengthens the tested clause with the negated literal. First-UIP learning and minimisation are covered by rules of C01/C05/C10 or not at all.',
+            'static analysis: abstract evaluation of the two clause operations over a finite domain of clause shapes compared with their set-theoretic definitions + use-site argument rule', ''),
     'C15': ('other',
             'Static: (1) UB-obligation engine - every compiler-inserted sanitizer obligation (signed overflow, narrowing, sign change, float cast) in FastRational.h/.cc is '
             'either deleted by LLVM -O2 range analysis or listed in a table with a written justification and the guards it relies on (guards must still be present); the IR '
@@ -191,7 +199,6 @@ CLAIMED = {
 
 NOT_APPLICABLE = {
     'C11': 'validity in the theory of clauses built from runtime solver state; the one shape-visible clause (positive Farkas coefficients) is claimed under C26',
-    'C12': 'propositional consequence of a runtime clause database (RUP) cannot be decided from source shape',
     'C30': 'termination needs ranking arguments for CDCL with restarts, Bland pivoting and lookahead; polling a stop flag is not termination',
 }
 
